@@ -1,0 +1,9 @@
+//go:build verif
+
+package event
+
+// Machine-checked contracts (read by /verif/engine; comment-only, compiled only with -tags verif).
+//
+// ---- guarded-by declarations (C20) ----
+// (the mutex is held by pointer: the lock that counts is the one eventBus.lock points to at the access)
+//@ guarded eventBus.listeners by lock
